@@ -113,6 +113,10 @@ def collision_doc(group: list, scope: str) -> dict:
         # with generate_all_tags: the clash happens in a tag that is not the first tag of the earlier operation
         for i, n in enumerate(group):
             d["paths"][f"/p{i}"] = {"get": {"operationId": n, "tags": [f"own{i}", "shared"] if i % 2 == 0 else ["shared"], "responses": ok}}
+    elif scope == "operation_ids_multi_tag_shared_first":
+        # the shared tag is never the last tag of an operation
+        for i, n in enumerate(group):
+            d["paths"][f"/p{i}"] = {"get": {"operationId": n, "tags": ["shared", f"own{i}"] if i % 3 != 2 else ["first", "shared", f"own{i}"], "responses": ok}}
     elif scope == "schema_vs_inline":
         S[group[0]] = {"type": "object", "properties": {"a": {"type": "string"}}}
         S["Holder"] = {"type": "object", "properties": {"x": {"type": "object", "title": group[1], "properties": {"b": {"type": "integer"}}}}}
@@ -152,7 +156,7 @@ def main() -> int:
             info[j["id"]] = ("name", X, slot, pre)
             jobs.append(j)
     scopes = ["properties", "params_same_location", "params_across_locations", "schemas", "enum_schemas", "operation_ids", "tags", "schema_vs_inline", "enum_members",
-              "allof_inherited_properties", "allof_redeclared_properties", "operation_ids_multi_tag", "params_path_item_vs_operation"]
+              "allof_inherited_properties", "allof_redeclared_properties", "operation_ids_multi_tag", "params_path_item_vs_operation", "operation_ids_multi_tag_shared_first"]
     ENUM_GROUPS = [["first", "VALUE_2", "3rd", "last"], ["value_1", "*", "all"], ["VALUE_0", "", "z"], ["a", "VALUE_3", "b", "4th"], ["a-b", "a_b"], ["a", "A"], ["x y", "x_y", "q"], ["VALUE_1", "a", "1"], ["Value 1", "9"], ["ok", "OK", "Ok"]]
     for k in range(120 if quick else 1800):
         size = r.choice([2, 2, 3, 4])
@@ -165,7 +169,7 @@ def main() -> int:
             group = ENUM_GROUPS[(k // len(scopes)) % len(ENUM_GROUPS)]
         if scope in ("schemas", "enum_schemas", "schema_vs_inline") and any(c in n for n in group for c in "/~#%"):
             continue
-        j = run.job(collision_doc(group, scope), want=["manifest", "tree"], cfg={"field_prefix": prefixes[k % len(prefixes)], **({"generate_all_tags": True} if scope == "operation_ids_multi_tag" else {})})
+        j = run.job(collision_doc(group, scope), want=["manifest", "tree"], cfg={"field_prefix": prefixes[k % len(prefixes)], **({"generate_all_tags": True} if scope.startswith("operation_ids_multi_tag") else {})})
         info[j["id"]] = ("collide", tuple(group), scope, prefixes[k % len(prefixes)])
         jobs.append(j)
     # behavioural side of "never merge" for a model's attributes: a typed property next to siblings spelled like the names the templates derive
@@ -212,6 +216,49 @@ def main() -> int:
                 pat = next((sfx for sfx in SUFFIXES if sfx.format(base_name) in changed), "base")
                 vd.violation(f"runtime_merge:attributes:{tk}:{pat.replace('{}', 'N')}", f"Holder with a {tk} property {base_name!r}: values of {changed} do not survive decode + encode: {expect.jdiff(x.get('e'), a['value'])[:200]}", w)
         ev.seen(("C09", "derived_siblings", base_name, tk))
+    # the same for an operation's parameters: an array-typed query parameter next to parameters (every location but the path) spelled like the
+    # names the endpoint template derives from it; every argument arrives under its own name with its own value
+    pjobs = []
+    for base_name in (["day", "ownerRef"] if quick else ["day", "ownerRef", "x", "value"]):
+        for items in ({"type": "string", "format": "date"}, {"type": "string", "enum": ["r", "g"]}, {"type": "integer"}):
+            import re as _re
+            sn = _re.sub(r"(?<=[a-z0-9])(?=[A-Z])", "_", base_name).lower()
+            derived = [f"{sn}_item", f"{sn}_item_data", f"json_{sn}", f"{sn}_", f"_{sn}", f"{sn}s"]
+            params = [{"name": base_name, "in": "query", "schema": {"type": "array", "items": items}}]
+            for rot in (0,):
+                pass
+            for i_, dn in enumerate(derived):
+                loc_ = ["header", "cookie", "query"][(i_ + len(pjobs)) % 3]  # one location per derived name (the same name in two locations is renamed per location)
+                params.append({"name": (dn.replace("_", "-").strip("-").title() or dn) if loc_ == "header" else dn, "in": loc_, "schema": {"type": "string"}})
+            d = docs.base_doc("3.0.3", "Derived parameter names API")
+            d["paths"] = {"/p": {"get": {"operationId": "derived_params", "parameters": params, "responses": {"200": {"description": "ok"}}}}}
+            j = run.job(d, want=["manifest"], plan={"fn": "ops", "args": {"seed": seed(), "calls_per_op": 2, "import": False}})
+            pjobs.append((j, base_name, items))
+    for (j, base_name, items), res in zip(pjobs, run.map([b[0] for b in pjobs], timeout=300)):
+        if res.get("_error") or (res.get("sandbox") or {}).get("_error") or res.get("exc"):
+            continue
+        from ..harness import actions_results
+        from .. import expect
+        sn = _re.sub(r"(?<=[a-z0-9])(?=[A-Z])", "_", base_name).lower()
+        for a, x in actions_results(res):
+            if a["a"] != "call" or x.get("action_exc"):
+                continue
+            for variant, vr in x.items():
+                reqs = (vr or {}).get("requests") or []
+                if vr.get("exc") and not reqs:
+                    vd.violation("runtime_merge:parameters:exception", f"operation with an array query parameter {base_name!r} next to parameters spelled like derived names: {variant} raised {vr['exc']['type']}: {vr['exc']['msg'][:120]}", {"doc": j["doc"], "args": a["args"]})
+                    continue
+                if len(reqs) != 1:
+                    continue
+                ev.count("derived_parameter_requests")
+                for eff_, det in expect.check_request(reqs[0], a["x"]):
+                    parts = eff_.split(":")
+                    if parts[0] in ("missing", "extra") and len(parts) > 1 and parts[1] in ("query", "header", "cookie"):
+                        m_ = _re.search(r"(?:query|header|cookie|parameter|entry) \(?'([^']+)'", det)
+                        nm_ = (m_.group(1) if m_ else "").lower().replace("-", "_")
+                        pat_ = next((p_ for p_, t_ in (("N_item_data", f"{sn}_item_data"), ("N_item", f"{sn}_item"), ("json_N", f"json_{sn}"), ("N_", f"{sn}_"), ("_N", f"_{sn}"), ("Ns", f"{sn}s")) if nm_ == t_), "other")
+                        vd.violation(f"runtime_merge:parameters:{parts[1]}:{pat_}", f"array query parameter {base_name!r} ({items.get('format') or items.get('type')}) next to parameters spelled like derived names: {variant}: {det}", {"doc": j["doc"], "args": a["args"], "x": a["x"]})
+        ev.seen(("C09", "derived_params", base_name, str(items)))
     rs = run.map(jobs, timeout=300)
     for j, res in zip(jobs, rs):
         kind, X, slot, pre = info[j["id"]]
@@ -292,7 +339,11 @@ def main() -> int:
                     if not res.get("diags"):
                         vd.violation("dropped_without_diagnostic:params", f"operation with parameters {group} not generated, no diagnostic", w)
                 else:
-                    ep0 = next((e_ for e_ in eps if e_.get("name") == "op" or e_.get("module") == "op"), eps[0])
+                    ep0 = next((e_ for e_ in eps if e_.get("name") == "op" or e_.get("module") == "op"), None)
+                    if ep0 is None:
+                        if "GET /p" not in diag_text:
+                            vd.violation("dropped_without_diagnostic:params", f"operation with parameters {group} not generated, no diagnostic names it", w)
+                        continue
                     py = [p["python_name"] for loc in ep0["params"].values() for p in loc]
                     if len(set(py)) < len(group) and not any(g in diag_text for g in group):
                         vd.violation("merged:parameters", f"parameters {group} became {py}", w)
@@ -313,7 +364,7 @@ def main() -> int:
                     vd.violation(f"merged:classes:{slot}", f"schemas {group} share classes {classes}", w)
                 if undiag:
                     vd.violation(f"dropped_without_diagnostic:{slot}", f"schemas {undiag} of {group} produced neither a class nor a diagnostic naming them", w)
-            elif slot == "operation_ids_multi_tag":
+            elif slot in ("operation_ids_multi_tag", "operation_ids_multi_tag_shared_first"):
                 ev.count("multi_tag_groups")
                 shared = [e for e in man.get("endpoints") or [] if e["tag"] == "shared"]
                 named = sum(1 for i in range(len(group)) if re.search(rf" /p{i}\b", diag_text))
